@@ -18,6 +18,9 @@ PROCX = {"name": "procx", "crate": "procx", "bin": "procx", "kind": "verif", "ar
 CACHEX = {"name": "cachex", "crate": "cachex", "bin": "cachex", "kind": "verif", "args": [],
           "about": "E2: exhaustive operation / clock-step / maintenance histories on the real cache (virtual clock H1, no background threads H2) vs a register-per-key model; residency dump, synchronous listener pump"}
 
+LOCKSTEP = {"name": "lockstep", "crate": "lockstep", "bin": "lockstep", "kind": "verif", "args": [],
+            "about": "E3: CHESS-style controlled scheduler over real OS threads; scheduling points at every hybrid-lock acquisition (hook H3), park/unpark/spawn in the loader path and in the harness loader body; DFS over schedules with preemption bound 2 (quick) / 3 (thorough)"}
+
 CACHE_ASSUME = [
     "single thread, background threads off (hook H2): the janitor's work happens only through run_maintenance(); interleavings are the lockstep engine's job",
     "time is the virtual clock of hook H1; Adv steps land before, exactly on and after each deadline",
@@ -31,9 +34,9 @@ CACHE_RULE = ("all histories up to the depth over per-family alphabets (cost/cos
               "current_cost vs resident cost; after maintenance also the capacity bound; non-trivial = ≥1 hit and ≥1 value overwritten/removed/evicted/expired")
 
 
-def cache(level_text, design_ref):
+def cache(level_text, design_ref, lockstep=False):
     return {
-        "jobs": [CACHEX],
+        "jobs": [CACHEX] + ([LOCKSTEP] if lockstep else []),
         "level": "model_checking",
         "level_text": level_text,
         "level_note": "trusts the per-key register model and the residency dump of hook verif::dump; sequential histories only (see lockstep for interleavings); depth and alphabets as reported per scenario",
@@ -80,9 +83,19 @@ CHECKS = {
     "C09": chan("drop ledger after every explored history and every teardown order in the alphabet: each payload instance dropped exactly once; the quick space is re-run under AddressSanitizer in the thorough tier", "§4 C09, §2 E2", extra_jobs=(SEQX_ASAN,)),
     "C11": cache("every read API on every explored history returns nothing or the latest live value of its own key; or_insert inserts at most once; compute applies once", "§5 C11"),
     "C12": cache("every read API at every explored virtual time: never an entry at/after its expiry; unbounded caches never lose a live entry however many maintenance passes run", "§5 C12"),
-    "C13": cache("after every step of every explored history current_cost equals the resident cost, and after maintenance the resident cost is within capacity, for all eight policies", "§5 C13"),
-    "C16": cache("after every step the listener's notifications are matched against the residency diff: truthful, right reason, never twice, none missing", "§5 C16"),
+    "C13": cache("after every step of every explored history current_cost equals the resident cost, and after maintenance the resident cost is within capacity, for all eight policies; lockstep: the same quiescent oracle after every schedule of user operations racing the janitor", "§5 C13, §2 E3", lockstep=True),
+    "C16": cache("after every step the listener's notifications are matched against the residency diff: truthful, right reason, never twice, none missing; lockstep: same after every schedule of removals racing eviction", "§5 C16, §2 E3", lockstep=True),
     "C17": cache("every enumeration API on every explored content/batch/shard combination yields exactly the stored unexpired entries once; snapshot → bincode → restore preserves mapping, costs, lifetimes, and the restored cache is held to the capacity oracle", "§5 C17"),
+    "C15": {
+        "jobs": [LOCKSTEP],
+        "level": "model_checking",
+        "level_text": "every critical-section interleaving (preemption bound 2 quick / 3 thorough) of 2–3 fetch_with callers and the loader thread the cache spawns: loader invocations per miss generation, returned values, residency, no caller parked forever",
+        "level_note": "scheduling points are the hybrid-lock acquisitions, thread::park/unpark/spawn in the loader path (hook H3) and two points inside the harness loader body; code between two points is an atomic block; sync Cache handle and sync loader only",
+        "technique": "stateless exhaustive DFS over schedules of real threads under a controlled scheduler with iterative preemption bounding",
+        "design_ref": "§5 C15, §2 E3",
+        "rule": "all schedules with ≤ bound preemptions of the programs listed in the scenarios (2–3 callers, same key / same stripe / two shards, after invalidation, stale-within-grace); every schedule re-executed on a fresh cache; non-trivial = operations of two threads overlap",
+        "assumptions": ["parking_lot mutexes, atomics and channel operations inside the cache contain no scheduling point (atomic blocks)", "no spurious thread::park wakeups"],
+    },
     "C14": {
         "jobs": [POLICYX],
         "level": "model_checking",
